@@ -482,6 +482,43 @@ def run_histories(ctx):
                       f"stat.transform.{tn}|configuration-depends-on-earlier-read-only-calls",
                       case_, lambda: {"values_fresh": np.asarray(v1).tolist(),
                                       "values_after": np.asarray(v2).tolist()})
+    # reset - set one parameter by name - reset: back to the defaults, i.e. the answers
+    # of a new object
+    for tn in TRANSFORMS:
+        if tn in ("Softmax", "Identity"):
+            continue
+        x = np.array([0.1, 0.5, 0.9, 0.3]) if tn == "Logit" else \
+            np.array([0.05, 0.5, 1.5, 2.5])
+        fresh = transform.get_transform(tn, **SETUP.get(tn, {}))
+        t = transform.get_transform(tn, **SETUP.get(tn, {}))
+        with warnings.catch_warnings(), np.errstate(all="ignore"):
+            warnings.simplefilter("ignore")
+            want = np.asarray(fresh.forward(x.copy()), dtype=float)
+            wantp = np.array(fresh.params.values, dtype=float)
+            for rnd in range(2):
+                t.reset()
+                for (k, val) in ASSIGN.get(tn, [])[:2]:
+                    if k not in list(t.params.names):
+                        continue
+                    try:
+                        if rnd:
+                            t[k] = val
+                        else:
+                            setattr(t, k, val)
+                    except Exception:
+                        pass
+                t.forward(x.copy())
+            t.reset()
+            got = np.asarray(t.forward(x.copy()), dtype=float)
+            gotp = np.array(t.params.values, dtype=float)
+        ctx.api("Transform.reset", 3)
+        ctx.tag("history:reset-set-reset")
+        ctx.evaluated()
+        ctx.check("history.reset-restores-defaults",
+                  same_result(gotp, wantp, 0) and same_result(got, want, 1e-13),
+                  f"stat.transform.{tn}|reset-does-not-restore-defaults-after-a-parameter-was-set",
+                  {"kind": "history-reset", "class": tn},
+                  lambda: {"params_after_reset": gotp.tolist(), "defaults": wantp.tolist()})
     # a caller-supplied answer vector that has served another call before
     big = np.array([[-10., -10.], [10., -10.], [10., 10.], [-10., 10.]])
     small = np.array([[0., 0.], [1., 0.], [1., 1.], [0., 1.]])
@@ -583,6 +620,38 @@ def run_grid_ownership(ctx):
         ctx.api("Catchment")
         ctx.tag("ownership:catchment-flow-grid")
         ctx.evaluated()
+        # a catchment rebuilt from a dictionary whose cell lists are the caller's own
+        # int64 arrays (in the upstream-walk order delineate_area gives): every later
+        # method leaves those arrays as they are
+        codes2 = np.full((nr, nc), 4, dtype=np.int64)
+        codes2[nr - 1, :] = 16
+        codes2[nr - 1, 0] = 0
+        fd2 = gg.Grid("fd", nc, nr, dtype=np.int64)
+        fd2.data = codes2
+        c_src = gg.Catchment("c", fd2)
+        c_src.delineate_area((nr - 1) * nc)
+        dic = c_src.to_dict()
+        mine = {k: np.array(dic[k], dtype=np.int64)[::-1].copy()
+                for k in ("idxcells_area", "idxcells_area_filled")}
+        keep_ = {k: v.copy() for k, v in mine.items()}
+        dic.update(mine)
+        try:
+            c_new = gg.Catchment.from_dict(dic)
+            for meth in ("delineate_boundary", "compute_flowpathlengths", "extent"):
+                try:
+                    getattr(c_new, meth)()
+                except Exception:
+                    pass
+            ctx.api("Catchment.from_dict", 4)
+            ctx.tag("ownership:from_dict-arrays")
+            ctx.check("from_dict.arrays-kept",
+                      all(np.array_equal(mine[k], keep_[k]) for k in mine),
+                      "gis.grid.Catchment.from_dict|caller-arrays-changed-by-later-methods",
+                      {"kind": "ownership", "how": "from_dict + delineate_boundary"},
+                      lambda: {k: [keep_[k][:6].tolist(), mine[k][:6].tolist()]
+                               for k in mine})
+        except Exception as e:
+            ctx.extra["from_dict-arrays-refused"] += 1
         ctx.check("catchment.owns-its-flow-grid", a1 == a2 and len(a1) == nr,
                   "gis.grid.Catchment|result-changes-after-caller-edits-its-flow-grid",
                   {"kind": "ownership", "how": "Catchment(flowdir)"},
